@@ -1,0 +1,96 @@
+//go:build verif
+
+package proxy
+
+import (
+	"net"
+
+	"go.minekube.com/gate/pkg/edition/java/netmc"
+	"go.minekube.com/gate/pkg/edition/java/profile"
+	"go.minekube.com/gate/pkg/edition/java/proto/packet"
+	"go.minekube.com/gate/pkg/edition/java/proto/packet/plugin"
+	"go.minekube.com/gate/pkg/edition/java/proto/state"
+	"go.minekube.com/gate/pkg/edition/java/proxy/phase"
+	"go.minekube.com/gate/pkg/gate/proto"
+	"go.minekube.com/gate/pkg/util/uuid"
+)
+
+// Verification hooks for property C25 (plugin channel events). Add-only, no logic: constructors of the
+// five session handlers that see plugin messages over caller-supplied connections, and forwarding
+// functions to their HandlePacket.
+
+// C25World is one player with one backend connection and the session handlers of every phase.
+type C25World struct {
+	player *connectedPlayer
+	sc     *serverConnection
+
+	clientPlay    *clientPlaySessionHandler
+	clientConfig  *clientConfigSessionHandler
+	clientInitial netmc.SessionHandler
+	backendPlay   netmc.SessionHandler
+	backendConfig netmc.SessionHandler
+}
+
+// C25NewWorld builds the player through newConnectedPlayer (deps as HandleConn builds them), a
+// serverConnection through newServerConnection over backend, installs it as connected and in-flight
+// server, and constructs the session handlers through their constructors.
+func C25NewWorld(px *Proxy, client, backend netmc.MinecraftConn) (*C25World, error) {
+	deps := &sessionHandlerDeps{
+		proxy:          px,
+		registrar:      px,
+		configProvider: px,
+		eventMgr:       px.event,
+		authenticator:  px.authenticator,
+		loginsQuota:    px.loginsQuota,
+	}
+	prof := &profile.GameProfile{ID: uuid.OfflinePlayerUUID("carol"), Name: "carol"}
+	vhost := &net.TCPAddr{IP: net.IPv4(127, 0, 0, 1), Port: 25565}
+	pl := newConnectedPlayer(client, prof, vhost, packet.LoginHandshakeIntent, false, nil, deps)
+	srv := newRegisteredServer(NewServerInfo("s0", &net.TCPAddr{IP: net.IPv4(127, 0, 0, 1), Port: 25566}))
+	sc := newServerConnection(srv, nil, pl)
+	sc.connection = backend
+	sc.connPhase = phase.VanillaBackendPhase
+	pl.setConnectedServer(sc)
+	pl.setInFlightConnection(sc)
+
+	w := &C25World{player: pl, sc: sc}
+	w.clientPlay = newClientPlaySessionHandler(pl)
+	w.clientConfig = newClientConfigSessionHandler(pl)
+	w.clientInitial = newInitialConnectSessionHandler(pl)
+	client.SetActiveSessionHandler(state.Play, w.clientPlay) // newBackendPlaySessionHandler requires it
+	var err error
+	if w.backendPlay, err = newBackendPlaySessionHandler(sc); err != nil {
+		return nil, err
+	}
+	if w.backendConfig, err = newBackendConfigSessionHandler(sc, nil); err != nil {
+		return nil, err
+	}
+	return w, nil
+}
+
+// MarkBackendReady forwards to clientConfigSessionHandler.flushQueuedPluginMessagesTo.
+func (w *C25World) MarkBackendReady() error { return w.clientConfig.flushQueuedPluginMessagesTo(w.sc) }
+
+func c25pc(dir proto.Direction, p proto.Protocol, channel string, data, payload []byte) *proto.PacketContext {
+	return &proto.PacketContext{Direction: dir, Protocol: p, Payload: payload,
+		Packet: &plugin.Message{Channel: channel, Data: data}}
+}
+
+// Handle forwards a known plugin.Message packet (with its raw payload) to HandlePacket of the handler
+// named by site: "cp" client play, "cc" client config, "ci" client initial-connect, "bp" backend play,
+// "bc" backend config.
+func (w *C25World) Handle(site, channel string, data, payload []byte) {
+	p := w.player.Protocol()
+	switch site {
+	case "cp":
+		w.clientPlay.HandlePacket(c25pc(proto.ServerBound, p, channel, data, payload))
+	case "cc":
+		w.clientConfig.HandlePacket(c25pc(proto.ServerBound, p, channel, data, payload))
+	case "ci":
+		w.clientInitial.HandlePacket(c25pc(proto.ServerBound, p, channel, data, payload))
+	case "bp":
+		w.backendPlay.HandlePacket(c25pc(proto.ClientBound, p, channel, data, payload))
+	case "bc":
+		w.backendConfig.HandlePacket(c25pc(proto.ClientBound, p, channel, data, payload))
+	}
+}
